@@ -254,7 +254,8 @@ class Lines(ConnFamily):
                 parts.append(stream[p:c])
                 p = c
             yield {"mw": rng.random() < 0.4, "up": up, "handler": ["s", [20, "text/gemini", ["s", "ok"]]],
-                   "evs": [["d", x.hex()] for x in parts if x] + ([["l"]] if not crlf and rng.random() < 0.8 else []) + [["ma"], ["ua", [20, "text/gemini", None]]],
+                   "evs": ([["wall", rng.choice([-3600, 31, 45, 3600, 86400])]] if rng.random() < 0.1 else []) + [["d", x.hex()] for x in parts if x]
+                          + ([["l"]] if not crlf and rng.random() < 0.8 else []) + [["ma"], ["ua", [20, "text/gemini", None]]],
                    "line": b.hex(), "crlf": crlf, "comps": comps, "titan": titan_ok, "content": content.hex(),
                    # an unterminated line followed by the peer's clean end of stream (eof_received, then connection_lost) or an abrupt loss
                    "eof": rng.random() < 0.7}
